@@ -131,8 +131,8 @@ CLAIMS = {
         text="Proof (Lean 4) about Model/Ca.lean: in every state but NORMAL send_message / send_pgn / send_request (any PGN but 0xEE00) raise and "
              "emit nothing, the request for address claim goes out from 254; in NORMAL all three carry exactly the held address; over EVERY "
              "history of claim-timer firings and received claims (any source, any NAME bytes — induction over the history) an operational CA "
-             "holds exactly the address it announced, a CA without address reports 254 and accepts nothing destination-specific; every frame "
-             "the claim machinery originates is an address-claimed frame from the announced / held / null address.",
+             "holds exactly the address it announced and (after fix D28) never an address above 253 (c13_never_at_null), a CA without address "
+             "reports 254 and accepts nothing destination-specific; every frame the claim machinery originates is an address-claimed frame from the announced / held / null address.",
         note="Tie: lock-step correspondence of the real ControllerApplication (fake ECU recording calls) with the model on random histories; "
              "oracle: real CA on a real ECU through claim histories, every entry point and service (Dm1, Dm11, Dm22, DM14/16), loss judged "
              "from the bus. Handler atomicity (histories, not thread schedules).",
